@@ -365,8 +365,47 @@ def forward_cases(tier):
         out.append(('forward-escape|passed-down-recursion|n=%d' % n,
                     'fn idf(x: int)->int{ x } fn outer(n: int, h: (int)->(int))->int{ forward fn f(x: int)->int; fn g(x: int)->int{ f(x) } fn f(x: int)->int{ x + n } '
                     'if(n == 0, h(1000), outer(n - 1, g)) } let r = outer(%d, idf);' % n, ('value', 1001)))
+    # overloaded forward declarations: each implementation fulfils the declaration of its own signature, whatever the order
+    out += forward_overload_cases(tier)
     # mutual recursion at top level
     out.append(('forward|mutual', 'forward fn odd(n: int)->bool; fn even(n: int)->bool{ n == 0 || odd(n - 1) } fn odd(n: int)->bool{ n != 0 && even(n - 1) } let r = if(even(10) && odd(7) && !even(3), 1, 0);', ('value', 1)))
+    return out
+
+
+def forward_overload_cases(tier):
+    out = []
+    sigs = ['int', 'str', 'float']
+    arg = {'int': '1', 'str': '"s"', 'float': '1.5'}
+    nxt = {'int': 'str', 'str': 'float'}
+    tag = {'int': 'i', 'str': 's', 'float': 'f'}
+    fwd = ''.join('forward fn d(x: %s)->str; ' % t for t in sigs)
+    for cross in (False, True):
+        def body(t):
+            if cross and t in nxt:
+                return '"%s" + d(%s)' % (tag[t], arg[nxt[t]])
+            return '"%s"' % tag[t]
+
+        def value(t):
+            return tag[t] + (value(nxt[t]) if cross and t in nxt else '')
+        for generic in (False, True):
+            pre = fwd + ('fn d<T>(x: T)->str{ "generic" } ' if generic else '')
+            for order in itertools.permutations(sigs):
+                for pos in range(0, 4):
+                    ful = set(order[:pos])
+
+                    def allowed(t):
+                        # invoking t invokes, transitively, everything its body calls: all of it must be implemented
+                        return t in ful and (not (cross and t in nxt) or allowed(nxt[t]))
+                    for t in sigs:
+                        ok = allowed(t)
+                        src = pre + ''.join('fn d(x: %s)->str{ %s } ' % (o, body(o)) for o in order[:pos]) + 'let r = d(%s); ' % arg[t] + \
+                            ''.join('fn d(x: %s)->str{ %s } ' % (o, body(o)) for o in order[pos:])
+                        exp = ('value', value(t)) if ok else ('error', 'MissingForwardImplementation')
+                        out.append(('forward-overloads|%s|%s|order=%s|pos=%d|call=%s' % ('cross' if cross else 'flat', 'generic' if generic else 'plain', '-'.join(order), pos, t), src, exp))
+                # a user function declared after the forwards and called at the end sees every implementation in its own cell
+                src = pre + 'fn user()->str{ d(1) + "," + d("s") + "," + d(1.5) } ' + ''.join('fn d(x: %s)->str{ %s } ' % (o, body(o)) for o in order) + 'let r = user();'
+                out.append(('forward-overloads|%s|%s|order=%s|user' % ('cross' if cross else 'flat', 'generic' if generic else 'plain', '-'.join(order)), src,
+                            ('value', ','.join(value(t) for t in sigs))))
     return out
 
 
